@@ -33,6 +33,57 @@ theorem C03_basic_keyring_use (P : Prims) (kr1 kr2 : Saltpack.Keyring) (res : Si
     Signcrypt.processHeader P kr1 res hh h = (log, r) :=
   sc_processHeader_transfer P kr1 kr2 res hh h hi ha h2 log r hph h1
 
+/-- **what sender a basic keyring reports — any length of the sender field**:
+    signcrypt_open.go hands the opened sender-key slice, WHATEVER its length (no
+    `rawBoxKeyFromSlice` there), to `LookupSigningPublicKey`; `basic.Keyring`
+    copies it into a 32-byte array (`kidToSigningPublicKey`: shorter fields are
+    zero-padded, longer ones truncated) and never answers nil.  So whenever the
+    header is accepted, the sender secretbox opened to some `senderKey`, and the
+    sender reported is none for an all-zero field and `kidToPublicKey senderKey`
+    otherwise — never `ErrNoSenderKey`.  (Whether the packets then verify under
+    that 32-byte key is the signature check's business.)  Correspondence: the
+    32-byte copy itself is driven for every length by the stream `basic.kid`;
+    a whole MESSAGE with such a field cannot be made with the library's own
+    sender (`signcryptSealStream.init` panics "unexpected signing key length"
+    for a signing key whose KID is not 32 bytes) — only a hostile sender emits
+    one, and the receiver path is the generic `processHeader` the `basic.sc.open.*`
+    streams drive. -/
+theorem C03_basic_reports_sender (P : Prims) (k : Basic.Keyring) (order : List SecretKey)
+    (res : Signcrypt.Resolver) (hh : Bytes) (h : EncHeader) (log : List KeyCall) (st : Signcrypt.State)
+    (hph : Signcrypt.processHeader P (k.toRing order) res hh h = (log, .ok st)) :
+    ∃ senderKey, P.sbOpen st.payloadKey Nonce.senderKeySecretBox h.senderSecretbox = some senderKey ∧
+      st.sender = (if senderKey.all (· == 0) then none else some (kidToPublicKey senderKey)) := by
+  unfold Signcrypt.processHeader at hph
+  split at hph
+  · cases (Prod.mk.inj hph).2
+  · split at hph
+    · cases (Prod.mk.inj hph).2
+    · simp only [] at hph
+      split at hph
+      · cases (Prod.mk.inj hph).2
+      · cases (Prod.mk.inj hph).2
+      · rename_i pk _
+        split at hph
+        · cases (Prod.mk.inj hph).2
+        · rename_i senderKey hs
+          split at hph
+          · rename_i hz
+            obtain ⟨_, h2⟩ := Prod.mk.inj hph
+            injection h2 with h2
+            subst h2
+            exact ⟨senderKey, hs, by simp [hz]⟩
+          · rename_i hz
+            have hl : (k.toRing order).lookupSigningPublicKey senderKey = some (kidToPublicKey senderKey) := rfl
+            rw [hl] at hph
+            obtain ⟨_, h2⟩ := Prod.mk.inj hph
+            injection h2 with h2
+            subst h2
+            exact ⟨senderKey, hs, by simp [hz]⟩
+
+/-- the 32-byte copy: a 3-byte field is zero-padded, a 33-byte field truncated -/
+example : kidToPublicKey [1, 2, 3] = [1, 2, 3] ++ List.replicate 29 0 ∧
+    kidToPublicKey (List.replicate 32 7 ++ [9]) = List.replicate 32 7 := by decide
+
 /-- **Box-key recipient, basic keyring that holds its key, with or without a
     resolver, any iteration order of the map** (`C03_roundtrip_box_ring` for the
     library's own keyring): opens to exactly the plaintext and the sender's
